@@ -16,10 +16,14 @@ def run(out):
     for r in results:
         impure += r.get('impure', [])
         cases += [v for v in r.get('validate', []) if v and 'error' not in v]
+        cases += [dict(v, pred=None, kind='ok') for v in r.get('impure_cases', [])]
     # a mocked, non-exported item after an exporting invocation: state leaking between invocations shows up here
     cases.append(dict(macro='entrait_export', attr_src='pub ExpFirst, mockall', item_src='fn exp_first ( deps : & impl B0 ) { }', item_flat=[], pred=None, kind='ok'))
     cases.append(dict(macro='entrait', attr_src='pub Plain, mockall', item_src='fn plain < A , B , C , E > ( deps : & impl B0 , a : A , b : B , c : C , e : E ) { }', item_flat=[], pred=None, kind='ok'))
     cases.append(dict(macro='entrait', attr_src='pub Plain2, mock_api = M, unimock', item_src='fn plain2 ( deps : & impl B0 ) { }', item_flat=[], pred=None, kind='ok'))
+    cases.append(dict(macro='entrait', attr_src='pub Sc', item_src='fn scale ( deps : & impl B0 , ( a , b ) : ( u32 , u32 ) , scale : u32 , _ : u8 ) { }', item_flat=[], pred=None, kind='ok'))
+    cases.append(dict(macro='entrait', attr_src='pub Bo', item_src='mod bo { pub fn f1 ( deps : & ( impl B0 + B1 ) ) { } pub fn f2 ( deps : & ( impl B2 + B3 + B0 ) ) { } pub fn f3 < D : B4 + B1 > ( deps : & D ) { } }', item_flat=[], pred=None, kind='ok'))
+    cases.append(dict(macro='entrait', attr_src='TrI, delegate_by = ref', item_src='trait Tr2 < X , Y , Z > { fn m1 ( & self , x : X , y : Y , z : Z ) ; fn m2 ( & self ) ; }', item_flat=[], pred=None, kind='ok'))
     nkeys, nexp, diffs = replay.determinism_check(cases, 's_determinism_C20')
     c = out.coverage
     c['determinism_replay'] = dict(distinct_invocations=nkeys, real_expansions_compared=nexp, differing=len(diffs),
